@@ -105,6 +105,118 @@ def calls_named(e, name):
         (isinstance(c.func, ast.Attribute) and c.func.attr == name) or (isinstance(c.func, ast.Name) and c.func.id == name))]
 
 
+def rule_pipeline(ctx):
+    """the serialisation pipeline, abstractly executed end to end: a Config built by the real constructor (plain fields
+    constants, the fields the property map encodes opaque objects) goes through ConfigSerialize(Config).serialize and the
+    resulting dict through deserialize; every attribute of the configuration that comes back equals the original -
+    modulo the laws  b64decode(b64encode(x).decode()) = x,  PublicKey(k.data) = k,
+    KeyPair.from_bytes(p.private.data + p.public.data) = p  - the dict carries the version as a meta property and only text
+    for the encoded fields; a configuration with nothing but the phone set comes back with everything else None.
+    -> True when every scenario was executed and clean"""
+    from ..absint import Interp, _Raise, NeedAtom, Budget, DomainGrew, C_NONE, enumerate_cells, show
+    repo = ctx.repo
+    scls = repo.cls(SER, "ConfigSerialize")
+    ccls = repo.cls("yowsup/config/v1/config.py", "Config")
+    k, init = repo.find_method(ccls, "__init__")
+    w = where(SER, "ConfigSerialize.__init__", repo.method(SER, "ConfigSerialize", "__init__").lineno)
+    params = [a.arg for a in init.args.args][1:]
+
+    def strip(t):
+        """simplify with b64decode(b64encode(x)[.decode()]) = x"""
+        if not isinstance(t, tuple):
+            return t
+        if t[0] in ("fn", "ext") and t[1].strip(".()").split(".")[-1] in ("b64decode", "urlsafe_b64decode", "standard_b64decode", "decodebytes"):
+            args = [strip(x) for x in t[2] if not (isinstance(x, tuple) and x[0] == "ext" and x[1].split(".")[-1].split(" ")[-1] == "base64")]
+            if len(args) == 1:
+                inner = args[0]
+                while isinstance(inner, tuple) and inner[0] in ("fn", "ext") and inner[1].strip(".()") in ("decode", "encode", "str") and inner[2]:
+                    inner = [y for y in inner[2] if not (isinstance(y, tuple) and y[0] == "c")][0] if [y for y in inner[2] if not (isinstance(y, tuple) and y[0] == "c")] else inner
+                    if not isinstance(inner, tuple):
+                        break
+                if isinstance(inner, tuple) and inner[0] in ("fn", "ext") and inner[1].strip(".()").split(".")[-1] in ("b64encode", "urlsafe_b64encode", "standard_b64encode", "encodebytes"):
+                    ia = [x for x in inner[2] if not (isinstance(x, tuple) and x[0] == "ext" and x[1].split(".")[-1].split(" ")[-1] == "base64")]
+                    if len(ia) == 1:
+                        return strip(ia[0])
+        if t[0] in ("fn", "ext"):
+            return (t[0], t[1], [strip(x) for x in t[2]])
+        if t[0] == "list":
+            return ("list", [strip(x) for x in t[1]]) + tuple(t[2:])
+        return t
+
+    def attr(v, *names):
+        for n in names:
+            v = ("fn", "." + n, [v])
+        return v
+
+    def same(orig, back):
+        b = strip(back)
+        if b == orig:
+            return True
+        # PublicKey(orig.data)
+        if isinstance(b, tuple) and b[0] == "ext" and b[1].rstrip("()").split(".")[-1] == "PublicKey" and b[2] and b[2][-1] == attr(orig, "data") and len([x for x in b[2] if x != attr(orig, "data")]) == 0:
+            return True
+        # KeyPair.from_bytes(orig.private.data + orig.public.data)
+        if isinstance(b, tuple) and b[0] == "fn" and b[1] == "from_bytes":
+            payload = [x for x in b[2] if not (isinstance(x, tuple) and x[0] == "ext" and x[1].split(".")[-1] == "KeyPair")]
+            if payload == [("fn", "Add", [attr(orig, "private", "data"), attr(orig, "public", "data")])]:
+                return True
+        return False
+
+    def run_scenario(only_phone):
+        def run(cell, domains):
+            it = Interp(repo, cell, domains)
+            it.max_steps = 400000
+            env = {"@module": scls.module, "@owner": None}
+            ser = it.construct(scls, [("cls", ccls)], {}, env, 0, None)
+            special = set()
+            tr = ser[1].fields.get("_transforms")
+            for t in (tr[1] if tr is not None and tr[0] == "list" else []):
+                tm = t[1].fields.get("_transform_map") if t[0] == "obj" else None
+                if tm is not None and tm[0] == "dict":
+                    special |= {k_ for k_ in tm[1] if isinstance(k_, str)}
+            given = {p: (("ext", "v:" + p, []) if p in special else ("c", "%s-value" % p)) for p in params if (not only_phone or p == "phone")}
+            cfg = it.construct(ccls, [], dict(given), env, 0, None)
+            before = {f: v for f, v in cfg[1].fields.items() if not f.startswith("@")}
+            D = it.method_call(ser, "serialize", [cfg], {}, env, 0, None)
+            cfg1 = it.method_call(ser, "deserialize", [D], {}, env, 0, None)
+            return {"before": before, "D": D, "after": cfg1, "special": special}, it
+        return enumerate_cells(run, {}, max_cells=64)
+    clean = True
+    for only_phone in (False, True):
+        label = "only the phone set" if only_phone else "every field set"
+        try:
+            cells = run_scenario(only_phone)
+        except _Raise as r:
+            ctx.violate("C19.maps", w, "round trip of a configuration with %s" % label, "serialising and loading a configuration with %s raises %s" % (label, r.text[:80]))
+            clean = False
+            continue
+        except (Budget, NeedAtom, DomainGrew) as x:
+            ctx.undecided("C19.maps", w, "round trip of a configuration with %s" % label, "could not be executed: %s" % (x,))
+            return False
+        for cell, r in cells:
+            D, after, before = r["D"], r["after"], r["before"]
+            if D[0] != "dict" or (len(D) > 2 and D[2]) or after[0] != "obj":
+                ctx.undecided("C19.maps", w, "round trip of a configuration with %s" % label, "the serialised form is not a closed dict / the loaded value is not an object")
+                return False
+            keys = sorted(str(k_) for k_ in D[1])
+            metas = [k_ for k_ in D[1] if isinstance(k_, str) and k_.startswith("__")]
+            ctx.check("C19.maps", len(metas) == 1 and all(isinstance(k_, str) for k_ in D[1]), w, "serialised dict (%s): keys %s" % (label, keys[:4]),
+                      "the serialised dict must have plain string keys and carry the version as its one meta property (keys: %s)" % keys, "string keys, one meta property")
+            nones = [k_ for k_, v_ in D[1].items() if v_ == C_NONE]
+            ctx.check("C19.maps", not nones, w, "unset fields are not serialised (%s)" % label, "fields %s are written with the value None" % nones, "no None values in the serialised dict")
+            for k_, v_ in sorted(D[1].items(), key=str):
+                if k_ in r["special"]:
+                    is_text = isinstance(v_, tuple) and v_[0] in ("fn", "ext") and v_[1].strip(".()") in ("decode", "str", "hex")
+                    clean &= bool(ctx.check("C19.maps", is_text, w, "encoded field %s is text" % k_, "field %r is serialised as %s: not text (json.dumps / the key=value writer cannot store bytes)" % (k_, show(v_)[:50]), "base64 text").verdict == "HOLDS")
+            for f, v0 in sorted(before.items()):
+                v1 = after[1].fields.get(f, ("absent",))
+                okf = same(v0, v1)
+                inst = ctx.check("C19.maps", okf, w, "attribute %s (%s)" % (f.lstrip("_"), label),
+                                 "attribute %r was %s and is %s after saving and loading" % (f.lstrip("_"), show(v0)[:40], show(strip(v1))[:80]), "comes back equal")
+                clean &= okf
+    return clean
+
+
 def rule_maps(ctx):
     repo = ctx.repo
     cls = repo.cls(SER, "ConfigSerialize")
@@ -336,11 +448,58 @@ def rule_detect(ctx):
         ctx.undecided("C19.detect", w, "TYPES", "trial-parse order not a literal dict of transform classes")
         return
     gt = repo.method(MGR, "ConfigManager", "guess_type")
-    # the trial loop: reverse() inside try, a handler that lets the loop go on
-    loops = [n for n in ast.walk(gt) if isinstance(n, ast.For) and "TYPES" in unparse(n.iter)]
-    tries = [t for l in loops for t in ast.walk(l) if isinstance(t, ast.Try) and calls_named(t, "reverse")]
-    ok = len(loops) == 1 and len(tries) == 1 and all(not any(isinstance(x, (ast.Raise, ast.Return, ast.Break)) for x in ast.walk(h)) for h in tries[0].handlers) and bool(tries[0].handlers)
-    ctx.check("C19.detect", ok, where(MGR, "ConfigManager.guess_type", gt.lineno), "trial parse: a format that raises is skipped", "a parser rejecting the data must make the detection move on to the next format", "rejection moves on to the next format")
+    # the trial loop, abstractly executed on an extension-less path with each format's reverse() scripted: raises /
+    # returns nothing / returns a document.  The answer must be the first format (in TYPES order) that returns a document;
+    # one that raises or returns nothing is skipped; when none accepts, no exception escapes
+    from ..absint import Interp, _Raise, NeedAtom, Budget, DomainGrew, C_NONE, enumerate_cells
+    import itertools
+    keys = []
+    ev_ = Evaluator(repo, cls.module, cls, class_scope=cls)
+    for k_ in te.keys:
+        a_ = alts(ev_.ev(k_))
+        keys.append(a_[0] if a_ and len(a_) == 1 else None)
+    bad, n_sc = [], 0
+    if None in keys:
+        ctx.undecided("C19.detect", where(MGR, "ConfigManager.guess_type", gt.lineno), "trial parse", "keys of TYPES are not constants")
+    else:
+        for script in itertools.product(("raise", "empty", "doc"), repeat=len(order)):
+            want = next((keys[i] for i, s_ in enumerate(script) if s_ == "doc"), None)
+
+            def run(cell, domains, script=script):
+                def reverse(itp, recv, a, k, env, d, e):
+                    if recv[0] == "obj" and recv[1].cls in order:
+                        s_ = script[order.index(recv[1].cls)]
+                        if s_ == "raise":
+                            raise _Raise(("ext", "ValueError", []), "ValueError: not this format")
+                        return ("dict", {}) if s_ == "empty" else ("dict", {"phone": ("c", "1")})
+                    return None
+
+                def extcall(itp, label, args, kwargs, env, depth, e):
+                    if label.strip(".()").split(".")[-1] == "splitext":
+                        return ("list", [("c", "/some/dir/config"), ("c", "")], False, "tuple")
+                    return None
+
+                def open_(itp, e, args, kwargs, env, depth):
+                    return ("ext", "file", [])
+                it = Interp(repo, cell, domains, hooks={"method:reverse": reverse, "extcall": extcall, "builtin:open": open_})
+                o = it.construct(cls, [], {}, {"@module": cls.module, "@owner": None}, 0, None)
+                try:
+                    r = it.call_function(gt, cls, o, [("c", "/some/dir/config")], {}, depth=0)
+                    return ("ret", r), it
+                except _Raise as x:
+                    return ("raise", x.text), it
+            try:
+                cells = enumerate_cells(run, {}, max_cells=32)
+            except (Budget, NeedAtom, DomainGrew) as x:
+                bad.append("scenario %s could not be executed (%s)" % (list(script), x))
+                continue
+            n_sc += 1
+            for cell, r in cells:
+                got = r[1][1] if r[0] == "ret" and r[1][0] == "c" else ("raises " + str(r[1])[:40] if r[0] == "raise" else "?")
+                if got != want:
+                    bad.append("when the formats answer %s the detected type is %s, not %s" % (dict(zip([c_.name for c_ in order], script)), got, want))
+        ctx.check("C19.detect", not bad, where(MGR, "ConfigManager.guess_type", gt.lineno), "trial parse: the first format that returns a document wins; raising / empty ones are skipped",
+                  "; ".join(bad[:2]) + (" (+%d more)" % (len(bad) - 2) if len(bad) > 2 else ""), "%d scripted scenarios of the trial loop" % n_sc)
     STRICT_EXTERNAL = {"DictJsonTransform": "json.loads"}      # json.loads raises on anything that is not a JSON document
     for i, c in enumerate(order[:-1]):
         later = [x.name for x in order[i + 1:]]
@@ -393,6 +552,143 @@ def mode_of(ev, call):
     return a
 
 
+def fs_trace_profile_write(ctx):
+    """writeProfileData(profile, name, value), abstractly executed with the file system opaque: what is observed is the
+    sequence of file-system calls per path class - the directory exists / does not exist (os.path.exists / isdir are
+    scripted), text / bytes value.
+      C19.atomic  every file opened for writing is a sibling of the profile file (the target path with a suffix, or another
+                  name in the target's directory), never the profile file itself; the value is written to it; it is closed;
+                  only then it is moved over the target with os.replace / os.rename(sibling, target); the target is the
+                  path of `name` inside the profile's storage directory
+      C19.dir     before the file is created its directory is known to exist: os.makedirs(dir) was called, or
+                  exists(dir) answered yes"""
+    from ..absint import Interp, _Raise, NeedAtom, Budget, DomainGrew, C_NONE, enumerate_cells, flat_effects, show
+    repo = ctx.repo
+    st = repo.cls(TOOLS, "StorageTools")
+    wpd = repo.method(TOOLS, "StorageTools", "writeProfileData")
+    w = where(TOOLS, "StorageTools.writeProfileData", wpd.lineno)
+    PROFILE, NAME, VAL, STORAGE = ("ext", "PROFILE", []), ("ext", "NAME", []), ("ext", "VAL", []), ("ext", "STORAGE", [])
+
+    def mentions(t, x):
+        if t == x:
+            return True
+        if isinstance(t, tuple):
+            return any(mentions(y, x) for y in t if isinstance(y, (tuple, list)))
+        if isinstance(t, list):
+            return any(mentions(y, x) for y in t)
+        return False
+
+    def libcall(t, name):
+        """the arguments when t is the result of the library function `name` (os.path.join / dirname), else None"""
+        if isinstance(t, tuple) and t[0] in ("ext", "fn") and t[1].strip(".()").split(".")[-1] == name:
+            return [x for x in t[2] if not (isinstance(x, tuple) and x[0] == "fn" and x[1].startswith("."))]
+        return None
+
+    def dir_of(t):
+        """the directory a path term lies in, as a term (or None)"""
+        a = libcall(t, "join")
+        if a and len(a) >= 2:
+            return a[0] if len(a) == 2 else ("ext", ".join()", a[:-1])
+        if isinstance(t, tuple) and t[0] == "fn" and t[1] == "Add" and t[2][1][0] == "c" and isinstance(t[2][1][1], str) and "/" not in t[2][1][1] and "\\" not in t[2][1][1]:
+            return dir_of(t[2][0])          # the same name with a suffix: the same directory
+        return None
+
+    def same_dir(d, path):
+        a = libcall(d, "dirname")
+        if a:
+            return a[0] == path or dir_of(a[0]) == dir_of(path) and dir_of(path) is not None
+        return d == dir_of(path) and d is not None
+
+    def scenario(exists_flag):
+        def run(cell, domains):
+            log = []
+
+            def open_(itp, e, args, kwargs, env, depth):
+                mode = args[1] if len(args) > 1 else kwargs.get("mode", ("c", "r"))
+                f = ("ext", "file#%d" % len(log), [])
+                itp.emit("CALL", "open", [args[0] if args else C_NONE, itp.concrete(mode) if mode[0] == "atom" else mode], f)
+                return f
+
+            def storage(itp, fn, owner, self_val, args, kwargs):
+                return STORAGE
+
+            def extcall(itp, label, args, kwargs, env, depth, e):
+                if label.strip(".()").split(".")[-1] in ("exists", "isdir"):
+                    itp.emit("CALL", "exists", list(args), None)
+                    return ("c", exists_flag)
+                return None
+            it = Interp(repo, cell, domains, hooks={"builtin:open": open_, "fn:getStorageForProfile": storage, "extcall": extcall})
+            raised = None
+            try:
+                it.call_function(wpd, st, None, [PROFILE, NAME, VAL], {}, depth=0)
+            except _Raise as r:
+                raised = r.text
+            return {"effects": list(flat_effects(it.effects)), "raised": raised}, it
+        return enumerate_cells(run, {}, max_cells=64)
+    bad_atomic, bad_dir, n_open, n_cells = set(), set(), 0, 0
+    for flag in (True, False):
+        try:
+            cells = scenario(flag)
+        except (Budget, NeedAtom, DomainGrew) as x:
+            ctx.undecided("C19.atomic", w, "file-system trace of writeProfileData", "could not be executed: %s" % (x,))
+            return
+        for cell, r in cells:
+            n_cells += 1
+            when = "directory %s" % ("exists" if flag else "does not exist")
+            if r["raised"]:
+                bad_atomic.add("writeProfileData raises %s [%s]" % (r["raised"][:60], when))
+                continue
+            events = []
+            for e in r["effects"]:
+                if e[0] == "CALL":
+                    events.append(("call", e[1], e[2], e[3] if len(e) > 3 else None))
+                elif e[0] in ("ENTER", "EXIT"):
+                    events.append((e[0].lower(), e[1]))
+            opens = [(i, ev) for i, ev in enumerate(events) if ev[0] == "call" and ev[1] == "open"]
+            unknown_mode = [ev for i, ev in opens if not (ev[2][1][0] == "c" and isinstance(ev[2][1][1], str))]
+            if unknown_mode:
+                bad_atomic.add("a file is opened with a mode that is not a known constant (%s)" % show(unknown_mode[0][2][1])[:30])
+                continue
+            writes = [(i, ev) for i, ev in opens if any(ch in ev[2][1][1] for ch in "wax+")]
+            renames = [(i, ev) for i, ev in enumerate(events) if ev[0] == "call" and ev[1].split(".")[-1] in ("replace", "rename") and len(ev[2]) == 2]
+            if not writes:
+                bad_atomic.add("no file is opened for writing [%s]" % when)
+                continue
+            n_open += len(writes)
+            target = renames[-1][1][2][1] if renames else None
+            if target is None:
+                bad_atomic.add("the value is written straight to %s and nothing is moved over the profile file afterwards: the profile file itself is opened with a truncating mode - a crash during the write leaves an empty or partial config (the key pair is lost)" % show(writes[0][1][2][0])[:50])
+                continue
+            if not (mentions(target, STORAGE) and mentions(target, NAME)):
+                bad_atomic.add("the file that is replaced (%s) is not `name` inside the profile's storage directory" % show(target)[:60])
+            for oi, ev in writes:
+                path, f = ev[2][0], ev[3]
+                if path == target:
+                    bad_atomic.add("the profile file itself is opened with a truncating mode: a crash during the write leaves an empty or partial config (the key pair is lost)")
+                    continue
+                if dir_of(path) is None or dir_of(path) != dir_of(target):
+                    bad_atomic.add("the temporary file %s is not a sibling of the target (another directory: the move is not atomic / may cross file systems)" % show(path)[:60])
+                mine = [(i, e2) for i, e2 in renames if e2[2][0] == path and e2[2][1] == target]
+                if not mine:
+                    bad_atomic.add("the temporary file %s is never moved over the target" % show(path)[:60])
+                    continue
+                ri = mine[-1][0]
+                wrote = [i for i, e2 in enumerate(events) if e2[0] == "call" and e2[3] is f and e2[1].split(".")[-1] in ("write", "writelines") and i < ri]
+                closed = [i for i, e2 in enumerate(events) if ((e2[0] == "call" and e2[3] is f and e2[1].split(".")[-1] == "close") or (e2[0] == "exit" and e2[1] is f)) and i < ri]
+                if not wrote or not any(mentions(events[i][2], VAL) for i in wrote):
+                    bad_atomic.add("the value is not written to the temporary file before it replaces the target")
+                elif not closed or max(wrote) > max(closed):
+                    bad_atomic.add("the temporary file is renamed over the profile file while it is still open: its buffered content has not been written, so a crash right after the rename leaves an empty or partial config")
+                made = [e2 for i, e2 in enumerate(events) if i < oi and e2[0] == "call" and e2[1].split(".")[-1] in ("makedirs", "mkdir") and e2[2] and same_dir(e2[2][0], path)]
+                asked = [e2 for i, e2 in enumerate(events) if i < oi and e2[0] == "call" and e2[1] == "exists" and e2[2] and same_dir(e2[2][0], path)]
+                if not made and not (asked and flag):
+                    bad_dir.add("when the %s, the file is created there without anything ensuring it: saving a profile that was never used raises FileNotFoundError" % when)
+    ctx.check("C19.atomic", not bad_atomic and n_open > 0, w, "temporary sibling, written, closed, then moved over the profile file",
+              "; ".join(sorted(bad_atomic)[:2]), "in %d path class(es): sibling file written and closed before it is moved over the target" % n_cells)
+    ctx.check("C19.atomic", not any("itself" in b_ or "straight" in b_ for b_ in bad_atomic) and n_open > 0, w, "the profile file itself is never opened for writing", "; ".join(sorted(b_ for b_ in bad_atomic if "itself" in b_ or "straight" in b_)[:1]), "only the sibling is opened for writing")
+    ctx.check("C19.dir", not bad_dir and n_open > 0, w, "directory of the created file ensured", "; ".join(sorted(bad_dir)[:2]), "makedirs(dir) or exists(dir) before the file is created, in every path class")
+
+
 def rule_atomic_dir(ctx):
     repo = ctx.repo
     st = repo.cls(TOOLS, "StorageTools")
@@ -406,58 +702,7 @@ def rule_atomic_dir(ctx):
     wpc = repo.method(TOOLS, "StorageTools", "writeProfileConfig")
     ok = bool(calls_named(save, "writeProfileConfig")) and bool(calls_named(wpc, "writeProfileData"))
     ctx.check("C19.atomic", ok, where(MGR, "ConfigManager.save", save.lineno), "save -> writeProfileConfig -> writeProfileData", "profile save no longer goes through StorageTools.writeProfileData", "save chain resolved")
-    # target path = the variable assigned from os.path.join(getStorageForProfile(..), name)
-    target = None
-    for n in ast.walk(wpd):
-        if isinstance(n, ast.Assign) and isinstance(n.targets[0], ast.Name) and calls_named(n.value, "getStorageForProfile") and calls_named(n.value, "join"):
-            target = n.targets[0].id
-    if target is None:
-        ctx.undecided("C19.atomic", w, wpd, "target path of the profile file not found")
-        return
-    opens = [c for c in open_calls(wpd) if any(ch in m for m in (mode_of(ev, c) or ["?"]) for ch in "wax+")]
-    if not opens:
-        ctx.undecided("C19.atomic", w, wpd, "no write-mode open() in writeProfileData")
-        return
-    for oc in opens:
-        arg = oc.args[0]
-        direct = isinstance(arg, ast.Name) and arg.id == target
-        # rename of the opened path onto the target after the write
-        ren = [c for c in ast.walk(wpd) if isinstance(c, ast.Call) and unparse(c.func) in ("os.replace", "os.rename") and len(c.args) == 2]
-        good = [c for c in ren if unparse(c.args[0]) == unparse(arg) and isinstance(c.args[1], ast.Name) and c.args[1].id == target]
-        if direct:
-            ctx.violate("C19.atomic", where(TOOLS, "StorageTools.writeProfileData", oc.lineno), oc,
-                        "the profile file itself is opened with a truncating mode: a crash during the write leaves an empty or partial config (the key pair is lost)")
-            continue
-        # the temp path must be derived from the target (same directory => rename is atomic)
-        tmpdef = None
-        if isinstance(arg, ast.Name):
-            for n in ast.walk(wpd):
-                if isinstance(n, ast.Assign) and isinstance(n.targets[0], ast.Name) and n.targets[0].id == arg.id:
-                    tmpdef = n.value
-        samedir = tmpdef is not None and any(isinstance(x, ast.Name) and x.id == target for x in ast.walk(tmpdef))
-        after = bool(good) and good[0].lineno > oc.lineno
-        ctx.check("C19.atomic", bool(good) and samedir and after, where(TOOLS, "StorageTools.writeProfileData", oc.lineno), oc,
-                  "the temporary file must live next to the target and be renamed over it (os.replace(tmp, target)) after the write", "temp file next to the target, then os.replace")
-        # the rename happens after the temporary file is closed (its buffered data written out): the with-statement that
-        # opened it must have been left - or, without a with, close() must dominate the rename
-        if good:
-            from ..cfg import CFG as _CFG
-            g = _CFG(wpd)
-            holder = [n for n in ast.walk(wpd) if isinstance(n, ast.With) and any(it.context_expr is oc for it in n.items)]
-            ren_nodes = [n for n in g.live if n.stmt is not None and n.kind == "stmt" and any(x is good[0] for x in ast.walk(n.stmt))]
-            if holder:
-                inside = any(x is good[0] for st_ in holder[0].body for x in ast.walk(st_))
-                closed = not inside
-            else:
-                fvar = None
-                for n in ast.walk(wpd):
-                    if isinstance(n, ast.Assign) and n.value is oc and isinstance(n.targets[0], ast.Name):
-                        fvar = n.targets[0].id
-                closes = [n for n in g.live if n.stmt is not None and n.kind == "stmt" and fvar and any(isinstance(x, ast.Call) and unparse(x.func) == fvar + ".close" for x in ast.walk(n.stmt))]
-                closed = bool(closes and ren_nodes) and all(any(g.dominates(c, r) for c in closes) for r in ren_nodes)
-            ctx.check("C19.atomic", closed, where(TOOLS, "StorageTools.writeProfileData", good[0].lineno), good[0],
-                      "the temporary file is renamed over the profile file while it is still open: its buffered content has not been written, so a crash right after the rename leaves an empty or partial config",
-                      "renamed after the temporary file was closed")
+    fs_trace_profile_write(ctx)
     # who-may-write: the only way library code saves a configuration is save(profile, config[, type]) -> the atomic profile
     # path above; the `dest=` form of save truncates its target in place (an export for tools), and nothing else opens a
     # file under the profile directory for writing
@@ -558,17 +803,6 @@ def rule_atomic_dir(ctx):
                 elif isinstance(s, ast.Return):
                     return self.ev(s.value, env) if s.value is not None else None
             return None
-    pe = PathEval()
-    ps = params_of(wpd, drop_self=False)
-    pe.run(wpd, {ps[0]: ("<profile>",), ps[1]: ("<name>",)})
-    wrote = [(c, p) for (c, p) in pe.opened if any(ch in m for m in (mode_of(ev, c) or ["?"]) for ch in "wax+")]
-    if not wrote:
-        ctx.undecided("C19.dir", w, wpd, "no file creation found by the path evaluation")
-    for c, p in wrote:
-        d = p[:-1]
-        ctx.check("C19.dir", d in pe.ensured, where(TOOLS, "StorageTools.writeProfileData", c.lineno), "creates %s" % "/".join(p),
-                  "the file is created in %s but only %s are ensured to exist: saving a profile that was never used raises FileNotFoundError" % ("/".join(d), sorted("/".join(x) for x in pe.ensured)),
-                  "directory %s ensured" % "/".join(d))
     # the key store path (factory) also lands in an ensured directory
     fac = repo.method("yowsup/axolotl/factory.py", "AxolotlManagerFactory", "get_manager")
     pe2 = PathEval()
@@ -623,7 +857,10 @@ def run(ctx):
     ctx.rule("C19.dir", "directory of the created file is ensured", floor=2)
     ctx.rule("C19.mode", "text/binary mode agreement of config files", floor=3)
     ctx.assume("os.replace is atomic on POSIX; JSON / key=value value round trip is not decided")
-    ctx.guarded("C19.maps", rule_maps, ctx)
+    decided = ctx.guarded("C19.maps", rule_pipeline, ctx)
+    if not decided:
+        # the execution found a problem or could not run: the structural reading names the map entry / stage at fault
+        ctx.guarded("C19.maps", rule_maps, ctx)
     ctx.guarded("C19.ctor", rule_ctor, ctx)
     ctx.guarded("C19.ext", rule_ext, ctx)
     ctx.guarded("C19.detect", rule_detect, ctx)
